@@ -1,4 +1,581 @@
 import TensorModel.Proofs.Kernels
-/-! C06 — property theorems (see Proofs/Kernels.lean for the kernel-level lemmas). -/
+/-!
+  C06 — elementwise arithmetic is coordinate-wise, in operand order, layout-blind.
+  Property theorems only; helper lemmas live in `TensorModel/Proofs/Kernels.lean`.
+
+  Vocabulary (defined in `Proofs/Kernels.lean`):
+  * `cell st b k : Option Val` — cell `k` of heap buffer `b` (`none` = no such buffer / too short);
+  * `InBuf st b off n` — `∃ ba, st.heap[b]? = some ba ∧ off + n ≤ ba.size`;
+  * `InRange l n` — every offset of the iterator stream `l` lies in `[0, n)`.
+  All statements hold for every length / every offset list and for arbitrary scalar functions `f`, `g`.
+-/
+set_option linter.unusedSimpArgs false
 namespace TM.C06
+open TM
+
+/-! ## 1. contiguous kernels: totality, values in operand order, frame -/
+
+/-- `a[i] = f a[i] b[i]`; nothing else changes (mask heap included). -/
+theorem kVV_sem (st : St) (a b : Win) (f : BinF) (hne : a.buf ≠ b.buf) (hcap : a.len ≤ b.cap)
+    (hA : InBuf st a.buf a.off a.len) (hB : InBuf st b.buf b.off a.len) :
+    ∃ st', kVV st a b f = .ok st' ∧ st'.mheap = st.mheap ∧
+      (∀ i, i < a.len → ∃ x y, cell st a.buf (a.off + i) = some x ∧ cell st b.buf (b.off + i) = some y ∧
+        cell st' a.buf (a.off + i) = some (f x y)) ∧
+      (∀ b' k, (b' ≠ a.buf ∨ k < a.off ∨ a.off + a.len ≤ k) → cell st' b' k = cell st b' k) := by
+  obtain ⟨st', h, w⟩ := kVV_spec st a b f hne hcap hA.has hB.has
+  exact ⟨st', h, w.sem2 hA.has hB.has⟩
+
+/-- scalar-vector: `b[i] = f a0 b[i]` — the scalar is the LEFT argument. -/
+theorem kSV_sem (st : St) (a0 : Val) (b : Win) (f : BinF) (hB : InBuf st b.buf b.off b.len) :
+    ∃ st', kSV st a0 b f = .ok st' ∧ st'.mheap = st.mheap ∧
+      (∀ i, i < b.len → ∃ y, cell st b.buf (b.off + i) = some y ∧ cell st' b.buf (b.off + i) = some (f a0 y)) ∧
+      (∀ b' k, (b' ≠ b.buf ∨ k < b.off ∨ b.off + b.len ≤ k) → cell st' b' k = cell st b' k) := by
+  obtain ⟨st', h, w⟩ := kSV_spec st a0 b f hB.has
+  exact ⟨st', h, Writes.sem1 (F := fun y => f a0 y) w hB.has⟩
+
+/-- vector-scalar: `a[i] = f a[i] b0` — the scalar is the RIGHT argument. -/
+theorem kVS_sem (st : St) (a : Win) (b0 : Val) (f : BinF) (hA : InBuf st a.buf a.off a.len) :
+    ∃ st', kVS st a b0 f = .ok st' ∧ st'.mheap = st.mheap ∧
+      (∀ i, i < a.len → ∃ x, cell st a.buf (a.off + i) = some x ∧ cell st' a.buf (a.off + i) = some (f x b0)) ∧
+      (∀ b' k, (b' ≠ a.buf ∨ k < a.off ∨ a.off + a.len ≤ k) → cell st' b' k = cell st b' k) := by
+  obtain ⟨st', h, w⟩ := kVS_spec st a b0 f hA.has
+  exact ⟨st', h, Writes.sem1 (F := fun x => f x b0) w hA.has⟩
+
+/-- receiver kernel: `recv[i] = f a[i] b[i]`; the receiver lives in a third buffer, so the operands
+    are unchanged (frame: every cell outside the receiver window keeps its value). -/
+theorem kRecvVV_sem (st : St) (a b recv : Win) (f : BinF) (hna : a.buf ≠ recv.buf) (hnb : b.buf ≠ recv.buf)
+    (hca : recv.len ≤ a.cap) (hcb : recv.len ≤ b.cap)
+    (hA : InBuf st a.buf a.off recv.len) (hB : InBuf st b.buf b.off recv.len)
+    (hR : InBuf st recv.buf recv.off recv.len) :
+    ∃ st', kRecvVV st a b recv f = .ok st' ∧ st'.mheap = st.mheap ∧
+      (∀ i, i < recv.len → ∃ x y, cell st a.buf (a.off + i) = some x ∧ cell st b.buf (b.off + i) = some y ∧
+        cell st' recv.buf (recv.off + i) = some (f x y)) ∧
+      (∀ b' k, (b' ≠ recv.buf ∨ k < recv.off ∨ recv.off + recv.len ≤ k) → cell st' b' k = cell st b' k) := by
+  obtain ⟨st', h, w⟩ := kRecvVV_spec st a b recv f hna hnb hca hcb hA.has hB.has hR.has
+  exact ⟨st', h, w.sem2 hA.has hB.has⟩
+
+/-- `recv[i] = f a0 b[i]` (scalar LEFT). -/
+theorem kRecvSV_sem (st : St) (a0 : Val) (b recv : Win) (f : BinF) (hnb : b.buf ≠ recv.buf)
+    (hlen : recv.len ≤ b.len) (hB : InBuf st b.buf b.off recv.len) (hR : InBuf st recv.buf recv.off recv.len) :
+    ∃ st', kRecvSV st a0 b recv f = .ok st' ∧ st'.mheap = st.mheap ∧
+      (∀ i, i < recv.len → ∃ y, cell st b.buf (b.off + i) = some y ∧
+        cell st' recv.buf (recv.off + i) = some (f a0 y)) ∧
+      (∀ b' k, (b' ≠ recv.buf ∨ k < recv.off ∨ recv.off + recv.len ≤ k) → cell st' b' k = cell st b' k) := by
+  obtain ⟨st', h, w⟩ := kRecvSV_spec st a0 b recv f hnb hlen hB.has hR.has
+  exact ⟨st', h, Writes.sem1 (F := fun y => f a0 y) w hB.has⟩
+
+/-- `recv[i] = f a[i] b0` (scalar RIGHT). -/
+theorem kRecvVS_sem (st : St) (a : Win) (b0 : Val) (recv : Win) (f : BinF) (hna : a.buf ≠ recv.buf)
+    (hlen : recv.len ≤ a.len) (hA : InBuf st a.buf a.off recv.len) (hR : InBuf st recv.buf recv.off recv.len) :
+    ∃ st', kRecvVS st a b0 recv f = .ok st' ∧ st'.mheap = st.mheap ∧
+      (∀ i, i < recv.len → ∃ x, cell st a.buf (a.off + i) = some x ∧
+        cell st' recv.buf (recv.off + i) = some (f x b0)) ∧
+      (∀ b' k, (b' ≠ recv.buf ∨ k < recv.off ∨ recv.off + recv.len ≤ k) → cell st' b' k = cell st b' k) := by
+  obtain ⟨st', h, w⟩ := kRecvVS_spec st a b0 recv f hna hlen hA.has hR.has
+  exact ⟨st', h, Writes.sem1 (F := fun x => f x b0) w hA.has⟩
+
+/-- `incr[i] = acc incr[i] (f a[i] b[i])`; only the `incr` window is written. -/
+theorem kIncrVV_sem (st : St) (a b incr : Win) (f acc : BinF) (hna : a.buf ≠ incr.buf) (hnb : b.buf ≠ incr.buf)
+    (hcb : a.len ≤ b.cap) (hci : a.len ≤ incr.cap)
+    (hA : InBuf st a.buf a.off a.len) (hB : InBuf st b.buf b.off a.len) (hI : InBuf st incr.buf incr.off a.len) :
+    ∃ st', kIncrVV st a b incr f acc = .ok st' ∧ st'.mheap = st.mheap ∧
+      (∀ i, i < a.len → ∃ r x y, cell st incr.buf (incr.off + i) = some r ∧ cell st a.buf (a.off + i) = some x ∧
+        cell st b.buf (b.off + i) = some y ∧ cell st' incr.buf (incr.off + i) = some (acc r (f x y))) ∧
+      (∀ b' k, (b' ≠ incr.buf ∨ k < incr.off ∨ incr.off + a.len ≤ k) → cell st' b' k = cell st b' k) := by
+  obtain ⟨st', h, w⟩ := kIncrVV_spec st a b incr f acc hna hnb hcb hci hA.has hB.has hI.has
+  exact ⟨st', h, Writes.sem3 (F := fun r x y => acc r (f x y)) w hI.has hA.has hB.has⟩
+
+/-- `incr[i] = acc incr[i] (f a0 b[i])` (scalar LEFT). -/
+theorem kIncrSV_sem (st : St) (a0 : Val) (b incr : Win) (f acc : BinF) (hnb : b.buf ≠ incr.buf)
+    (hlen : incr.len ≤ b.len) (hB : InBuf st b.buf b.off incr.len) (hI : InBuf st incr.buf incr.off incr.len) :
+    ∃ st', kIncrSV st a0 b incr f acc = .ok st' ∧ st'.mheap = st.mheap ∧
+      (∀ i, i < incr.len → ∃ r y, cell st incr.buf (incr.off + i) = some r ∧ cell st b.buf (b.off + i) = some y ∧
+        cell st' incr.buf (incr.off + i) = some (acc r (f a0 y))) ∧
+      (∀ b' k, (b' ≠ incr.buf ∨ k < incr.off ∨ incr.off + incr.len ≤ k) → cell st' b' k = cell st b' k) := by
+  obtain ⟨st', h, w⟩ := kIncrSV_spec st a0 b incr f acc hnb hlen hB.has hI.has
+  exact ⟨st', h, Writes.sem2 (F := fun r y => acc r (f a0 y)) w hI.has hB.has⟩
+
+/-- `incr[i] = acc incr[i] (f a[i] b0)` (scalar RIGHT). -/
+theorem kIncrVS_sem (st : St) (a : Win) (b0 : Val) (incr : Win) (f acc : BinF) (hna : a.buf ≠ incr.buf)
+    (hlen : incr.len ≤ a.len) (hA : InBuf st a.buf a.off incr.len) (hI : InBuf st incr.buf incr.off incr.len) :
+    ∃ st', kIncrVS st a b0 incr f acc = .ok st' ∧ st'.mheap = st.mheap ∧
+      (∀ i, i < incr.len → ∃ r x, cell st incr.buf (incr.off + i) = some r ∧ cell st a.buf (a.off + i) = some x ∧
+        cell st' incr.buf (incr.off + i) = some (acc r (f x b0))) ∧
+      (∀ b' k, (b' ≠ incr.buf ∨ k < incr.off ∨ incr.off + incr.len ≤ k) → cell st' b' k = cell st b' k) := by
+  obtain ⟨st', h, w⟩ := kIncrVS_spec st a b0 incr f acc hna hlen hA.has hI.has
+  exact ⟨st', h, Writes.sem2 (F := fun r x => acc r (f x b0)) w hI.has hA.has⟩
+
+/-- unary kernel: `a[i] = g a[i]`. -/
+theorem kUn_sem (st : St) (a : Win) (g : UnF) (hA : InBuf st a.buf a.off a.len) :
+    ∃ st', kUn st a g = .ok st' ∧ st'.mheap = st.mheap ∧
+      (∀ i, i < a.len → ∃ x, cell st a.buf (a.off + i) = some x ∧ cell st' a.buf (a.off + i) = some (g x)) ∧
+      (∀ b' k, (b' ≠ a.buf ∨ k < a.off ∨ a.off + a.len ≤ k) → cell st' b' k = cell st b' k) := by
+  obtain ⟨st', h, w⟩ := kUn_spec st a g hA.has
+  exact ⟨st', h, w.sem1 hA.has⟩
+
+/-! ## 2. iterator kernels -/
+
+/-- Two-iterator kernel with validity flags. Position `k` of the lock-step walk (`k` below both stream
+    lengths) combines `a[ia[k]]` with `b[ib[k]]` and stores the result at `a[ia[k]]` when both flags are
+    set; when either flag is clear the position is skipped (its cell is unchanged); every cell that no
+    active position addresses is unchanged. -/
+theorem kIterVV_sem (st : St) (a b : Win) (f : BinF) (ia ib : ItS) (hne : a.buf ≠ b.buf)
+    (hra : InRange ia a.len) (hrb : InRange ib b.len) (hnd : (ia.map (·.1)).Nodup)
+    (hA : InBuf st a.buf a.off a.len) (hB : InBuf st b.buf b.off b.len) :
+    ∃ st', kIterVV st a b f ia ib = .ok st' ∧ st'.mheap = st.mheap ∧
+      (∀ (k : Nat) i vi j vj, ia[k]? = some (i, vi) → ib[k]? = some (j, vj) →
+        (vi = true ∧ vj = true →
+          ∃ x y, cell st a.buf (a.off + i.toNat) = some x ∧ cell st b.buf (b.off + j.toNat) = some y ∧
+            cell st' a.buf (a.off + i.toNat) = some (f x y)) ∧
+        (¬(vi = true ∧ vj = true) → cell st' a.buf (a.off + i.toNat) = cell st a.buf (a.off + i.toNat))) ∧
+      (∀ b' k', (b' ≠ a.buf ∨ ∀ (k : Nat) i vi j vj, ia[k]? = some (i, vi) → ib[k]? = some (j, vj) →
+          vi = true → vj = true → k' ≠ a.off + i.toNat) → cell st' b' k' = cell st b' k') := by
+  obtain ⟨st', h, hm, _, hv, hfr⟩ := kIterVV_spec st a b f ia ib hne hra hrb hnd hA.has hB.has
+  refine ⟨st', h, hm, ?_, hfr⟩
+  intro k i vi j vj h1 h2
+  have hi := hra _ (List.mem_of_getElem? h1)
+  have hj := hrb _ (List.mem_of_getElem? h2)
+  constructor
+  · intro hact
+    exact ⟨_, _, cell_some_cellD (hA.has.at hi.1 hi.2), cell_some_cellD (hB.has.at hj.1 hj.2),
+      hv k i vi j vj h1 h2 hact.1 hact.2⟩
+  · intro hoff
+    apply hfr
+    refine Or.inr ?_
+    intro k2 i2 vi2 j2 vj2 g1 g2 a1 a2 he
+    have hk := nodup_pos_unique hnd hra h1 g1 a.off he
+    subst hk
+    rw [h1] at g1; rw [h2] at g2
+    cases g1; cases g2
+    exact hoff ⟨a1, a2⟩
+
+/-- Validity-all-true streams (unmasked tensors): for every `k < min oa.length ob.length` the cell at
+    offset `oa[k]` becomes `f (old a[oa[k]]) (old b[ob[k]])`; all other cells are unchanged. -/
+theorem kIterVV_alltrue (st : St) (a b : Win) (f : BinF) (oa ob : List Int) (hne : a.buf ≠ b.buf)
+    (hra : ∀ i ∈ oa, 0 ≤ i ∧ i < (a.len : Int)) (hrb : ∀ j ∈ ob, 0 ≤ j ∧ j < (b.len : Int)) (hnd : oa.Nodup)
+    (hA : InBuf st a.buf a.off a.len) (hB : InBuf st b.buf b.off b.len) :
+    ∃ st', kIterVV st a b f (oa.map (·, true)) (ob.map (·, true)) = .ok st' ∧ st'.mheap = st.mheap ∧
+      (∀ (k : Nat) i j, oa[k]? = some i → ob[k]? = some j →
+        ∃ x y, cell st a.buf (a.off + i.toNat) = some x ∧ cell st b.buf (b.off + j.toNat) = some y ∧
+          cell st' a.buf (a.off + i.toNat) = some (f x y)) ∧
+      (∀ b' k', (b' ≠ a.buf ∨ ∀ (k : Nat) i j, oa[k]? = some i → ob[k]? = some j → k' ≠ a.off + i.toNat) →
+        cell st' b' k' = cell st b' k') := by
+  obtain ⟨st', h, hm, hv, hfr⟩ := kIterVV_sem st a b f _ _ hne (inRange_map_true hra) (inRange_map_true hrb)
+    (by rw [map_true_fst]; exact hnd) hA hB
+  refine ⟨st', h, hm, ?_, ?_⟩
+  · intro k i j h1 h2
+    exact (hv k i true j true (getElem?_map_true h1) (getElem?_map_true h2)).1 ⟨rfl, rfl⟩
+  · intro b' k' hbk
+    apply hfr
+    rcases hbk with hb | hk
+    · exact Or.inl hb
+    · exact Or.inr (fun k i vi j vj h1 h2 _ _ => hk k i j (of_getElem?_map_true h1) (of_getElem?_map_true h2))
+
+/-- scalar-LEFT iterator kernel: `b[i] = f a0 b[i]` at the valid offsets, skipped where the flag is clear. -/
+theorem kIterSV_sem (st : St) (a0 : Val) (b : Win) (f : BinF) (ib : ItS)
+    (hr : InRange ib b.len) (hnd : (ib.map (·.1)).Nodup) (hB : InBuf st b.buf b.off b.len) :
+    ∃ st', kIterSV st a0 b f ib = .ok st' ∧ st'.mheap = st.mheap ∧
+      (∀ i, (i, true) ∈ ib → ∃ y, cell st b.buf (b.off + i.toNat) = some y ∧
+        cell st' b.buf (b.off + i.toNat) = some (f a0 y)) ∧
+      (∀ i, (i, false) ∈ ib → cell st' b.buf (b.off + i.toNat) = cell st b.buf (b.off + i.toNat)) ∧
+      (∀ b' k', (b' ≠ b.buf ∨ ∀ i, (i, true) ∈ ib → k' ≠ b.off + i.toNat) → cell st' b' k' = cell st b' k') := by
+  obtain ⟨st', h, hm, _, hv, hfr⟩ := kIterSV_spec st a0 b f ib hr hnd hB.has
+  refine ⟨st', h, hm, ?_, ?_, hfr⟩
+  · intro i hi
+    have := hr _ hi
+    exact ⟨_, cell_some_cellD (hB.has.at this.1 this.2), hv i hi⟩
+  · intro i hi
+    apply hfr
+    refine Or.inr (fun i' hi' he => ?_)
+    have := nodup_fst_flag hnd hi hi'
+    have h1 := hr _ hi
+    have h2 := hr _ hi'
+    simp only at h1 h2
+    omega
+
+/-- scalar-RIGHT iterator kernel: `a[i] = f a[i] b0`. -/
+theorem kIterVS_sem (st : St) (a : Win) (b0 : Val) (f : BinF) (ia : ItS)
+    (hr : InRange ia a.len) (hnd : (ia.map (·.1)).Nodup) (hA : InBuf st a.buf a.off a.len) :
+    ∃ st', kIterVS st a b0 f ia = .ok st' ∧ st'.mheap = st.mheap ∧
+      (∀ i, (i, true) ∈ ia → ∃ x, cell st a.buf (a.off + i.toNat) = some x ∧
+        cell st' a.buf (a.off + i.toNat) = some (f x b0)) ∧
+      (∀ i, (i, false) ∈ ia → cell st' a.buf (a.off + i.toNat) = cell st a.buf (a.off + i.toNat)) ∧
+      (∀ b' k', (b' ≠ a.buf ∨ ∀ i, (i, true) ∈ ia → k' ≠ a.off + i.toNat) → cell st' b' k' = cell st b' k') := by
+  obtain ⟨st', h, hm, _, hv, hfr⟩ := kIterVS_spec st a b0 f ia hr hnd hA.has
+  refine ⟨st', h, hm, ?_, ?_, hfr⟩
+  · intro i hi
+    have := hr _ hi
+    exact ⟨_, cell_some_cellD (hA.has.at this.1 this.2), hv i hi⟩
+  · intro i hi
+    apply hfr
+    refine Or.inr (fun i' hi' he => ?_)
+    have := nodup_fst_flag hnd hi hi'
+    have h1 := hr _ hi
+    have h2 := hr _ hi'
+    simp only at h1 h2
+    omega
+
+/-- Three-iterator kernel (destination `d` in a buffer different from both operand buffers):
+    `d[ik[k]] = g d[ik[k]] (f a[ia[k]] b[ib[k]])` where all three flags are set; operands unchanged. -/
+theorem kIter3VV_sem (st : St) (a b d : Win) (f g : BinF) (ia ib ik : ItS)
+    (hna : a.buf ≠ d.buf) (hnb : b.buf ≠ d.buf)
+    (hra : InRange ia a.len) (hrb : InRange ib b.len) (hrk : InRange ik d.len) (hnd : (ik.map (·.1)).Nodup)
+    (hA : InBuf st a.buf a.off a.len) (hB : InBuf st b.buf b.off b.len) (hD : InBuf st d.buf d.off d.len) :
+    ∃ st', kIter3VV st a b d f g ia ib ik = .ok st' ∧ st'.mheap = st.mheap ∧
+      (∀ (k : Nat) i vi j vj m vm, ia[k]? = some (i, vi) → ib[k]? = some (j, vj) → ik[k]? = some (m, vm) →
+        (vi = true ∧ vj = true ∧ vm = true →
+          ∃ r x y, cell st d.buf (d.off + m.toNat) = some r ∧ cell st a.buf (a.off + i.toNat) = some x ∧
+            cell st b.buf (b.off + j.toNat) = some y ∧ cell st' d.buf (d.off + m.toNat) = some (g r (f x y))) ∧
+        (¬(vi = true ∧ vj = true ∧ vm = true) →
+          cell st' d.buf (d.off + m.toNat) = cell st d.buf (d.off + m.toNat))) ∧
+      (∀ b' k', (b' ≠ d.buf ∨ ∀ (k : Nat) i vi j vj m vm, ia[k]? = some (i, vi) → ib[k]? = some (j, vj) →
+          ik[k]? = some (m, vm) → vi = true → vj = true → vm = true → k' ≠ d.off + m.toNat) →
+        cell st' b' k' = cell st b' k') := by
+  obtain ⟨st', h, hm, _, hv, hfr⟩ := kIter3VV_spec st a b d f g ia ib ik hna hnb hra hrb hrk hnd
+    hA.has hB.has hD.has
+  refine ⟨st', h, hm, ?_, hfr⟩
+  intro k i vi j vj m vm h1 h2 h3
+  have hi := hra _ (List.mem_of_getElem? h1)
+  have hj := hrb _ (List.mem_of_getElem? h2)
+  have hk := hrk _ (List.mem_of_getElem? h3)
+  constructor
+  · intro hact
+    exact ⟨_, _, _, cell_some_cellD (hD.has.at hk.1 hk.2), cell_some_cellD (hA.has.at hi.1 hi.2),
+      cell_some_cellD (hB.has.at hj.1 hj.2), hv k i vi j vj m vm h1 h2 h3 hact.1 hact.2.1 hact.2.2⟩
+  · intro hoff
+    apply hfr
+    refine Or.inr ?_
+    intro k2 i2 vi2 j2 vj2 m2 vm2 g1 g2 g3 a1 a2 a3 he
+    have hkk := nodup_pos_unique hnd hrk h3 g3 d.off he
+    subst hkk
+    rw [h1] at g1; rw [h2] at g2; rw [h3] at g3
+    cases g1; cases g2; cases g3
+    exact hoff ⟨a1, a2, a3⟩
+
+/-- unary iterator kernel: `a[i] = g a[i]` at the valid offsets. -/
+theorem kUnIter_sem (st : St) (a : Win) (g : UnF) (ia : ItS)
+    (hr : InRange ia a.len) (hnd : (ia.map (·.1)).Nodup) (hA : InBuf st a.buf a.off a.len) :
+    ∃ st', kUnIter st a g ia = .ok st' ∧ st'.mheap = st.mheap ∧
+      (∀ i, (i, true) ∈ ia → ∃ x, cell st a.buf (a.off + i.toNat) = some x ∧
+        cell st' a.buf (a.off + i.toNat) = some (g x)) ∧
+      (∀ i, (i, false) ∈ ia → cell st' a.buf (a.off + i.toNat) = cell st a.buf (a.off + i.toNat)) ∧
+      (∀ b' k', (b' ≠ a.buf ∨ ∀ i, (i, true) ∈ ia → k' ≠ a.off + i.toNat) → cell st' b' k' = cell st b' k') := by
+  obtain ⟨st', h, hm, _, hv, hfr⟩ := kUnIter_spec st a g ia hr hnd hA.has
+  refine ⟨st', h, hm, ?_, ?_, hfr⟩
+  · intro i hi
+    have := hr _ hi
+    exact ⟨_, cell_some_cellD (hA.has.at this.1 this.2), hv i hi⟩
+  · intro i hi
+    apply hfr
+    refine Or.inr (fun i' hi' he => ?_)
+    have := nodup_fst_flag hnd hi hi'
+    have h1 := hr _ hi
+    have h2 := hr _ hi'
+    simp only at h1 h2
+    omega
+
+/-! ## 3. dispatch on raw length == 1 -/
+
+/-- `E.Op` chooses SV / VS / VV by `len == 1`, exactly. -/
+theorem eOp_dispatch (st : St) (a b : Win) (f fv : BinF) :
+    eOp st a b f fv =
+      if a.len = 1 ∧ b.len ≠ 1 then (do kSV st (← st.rd a 1 0) b f)
+      else if a.len ≠ 1 ∧ b.len = 1 then (do kVS st a (← st.rd b 1 0) f)
+      else kVV st a b fv := by
+  by_cases ha : a.len = 1 <;> by_cases hb : b.len = 1
+  · simp only [ha, hb, ne_eq, not_true_eq_false, and_false, false_and, if_false]
+    exact eOp_VV st a b f fv (by simp [ha, hb])
+  · simp only [ha, hb, ne_eq, not_false_eq_true, and_self, if_true]
+    exact eOp_SV st a b f fv ha hb
+  · simp only [ha, hb, ne_eq, not_false_eq_true, not_true_eq_false, and_self, and_false, if_false, if_true,
+      false_and]
+    exact eOp_VS st a b f fv ha hb
+  · simp only [ha, hb, ne_eq, not_false_eq_true, and_true, and_false, false_and, if_false]
+    exact eOp_VV st a b f fv (by simp [ha, hb])
+
+/-- first operand of length one, second not: the scalar is the LEFT argument of `f`. -/
+theorem eOp_scalar_left (st : St) (a b : Win) (f fv : BinF) (a0 : Val) (h : a.len = 1 ∧ b.len ≠ 1)
+    (h0 : cell st a.buf a.off = some a0) : eOp st a b f fv = kSV st a0 b f :=
+  TM.eOp_scalar_left st a b f fv a0 h.1 h.2 h0
+
+/-- second operand of length one, first not: the scalar is the RIGHT argument of `f`. -/
+theorem eOp_scalar_right (st : St) (a b : Win) (f fv : BinF) (b0 : Val) (h : b.len = 1 ∧ a.len ≠ 1)
+    (h0 : cell st b.buf b.off = some b0) : eOp st a b f fv = kVS st a b0 f :=
+  TM.eOp_scalar_right st a b f fv b0 h.2 h.1 h0
+
+/-- `E.OpIter`: both scalars → the contiguous VV kernel; one scalar → SV / VS iterator kernel. -/
+theorem eOpIter_dispatch (st : St) (a b : Win) (f fv : BinF) (ia ib : ItS) :
+    eOpIter st a b f ia ib fv =
+      if a.len = 1 ∧ b.len = 1 then kVV st a b fv
+      else if a.len = 1 then (do kIterSV st (← st.rd a 1 0) b f ib)
+      else if b.len = 1 then (do kIterVS st a (← st.rd b 1 0) f ia)
+      else kIterVV st a b f ia ib := by
+  by_cases ha : a.len = 1 <;> by_cases hb : b.len = 1
+  · simp only [ha, hb, and_self, if_true]
+    exact eOpIter_SS st a b f fv ia ib ha hb
+  · simp only [ha, hb, and_false, if_false, if_true]
+    exact eOpIter_SV st a b f fv ia ib ha hb
+  · simp only [ha, hb, false_and, if_false, if_true]
+    exact eOpIter_VS st a b f fv ia ib ha hb
+  · simp only [ha, hb, and_self, if_false]
+    exact eOpIter_VV st a b f fv ia ib ha hb
+
+theorem eOpIter_scalar_left (st : St) (a b : Win) (f fv : BinF) (ia ib : ItS) (a0 : Val)
+    (h : a.len = 1 ∧ b.len ≠ 1) (h0 : cell st a.buf a.off = some a0) :
+    eOpIter st a b f ia ib fv = kIterSV st a0 b f ib :=
+  TM.eOpIter_scalar_left st a b f fv ia ib a0 h.1 h.2 h0
+
+theorem eOpIter_scalar_right (st : St) (a b : Win) (f fv : BinF) (ia ib : ItS) (b0 : Val)
+    (h : b.len = 1 ∧ a.len ≠ 1) (h0 : cell st b.buf b.off = some b0) :
+    eOpIter st a b f ia ib fv = kIterVS st a b0 f ia :=
+  TM.eOpIter_scalar_right st a b f fv ia ib b0 h.2 h.1 h0
+
+/-- `E.Cmp` (bool receiver): refusal, then SV / VS receiver kernels, else the VV loop `kCmpVV`. -/
+theorem eCmp_dispatch (st : St) (a b r : Win) (f : BinF) :
+    eCmp st a b r f =
+      if ((a.len = 1 ∧ b.len ≠ 1) ∨ (b.len = 1 ∧ a.len ≠ 1)) ∧ r.len = 1 then throwErr "retVal is a scalar"
+      else if a.len = 1 ∧ b.len ≠ 1 then (do kRecvSV st (← st.rd a 1 0) b r f)
+      else if a.len ≠ 1 ∧ b.len = 1 then (do kRecvVS st a (← st.rd b 1 0) r f)
+      else kCmpVV st a b r f := by
+  by_cases ha : a.len = 1 <;> by_cases hb : b.len = 1
+  · simp only [ha, hb, ne_eq, not_true_eq_false, and_false, or_self, false_and, if_false]
+    exact eCmp_VV st a b r f (by simp [ha, hb])
+  · by_cases hr : r.len = 1
+    · simp only [ha, hb, hr, ne_eq, not_false_eq_true, and_self, true_or, if_true]
+      exact eCmp_refuses st a b r f (Or.inl ⟨ha, hb⟩) hr
+    · simp only [ha, hb, hr, ne_eq, not_false_eq_true, and_self, and_false, if_false, if_true]
+      exact eCmp_SV st a b r f ha hb hr
+  · by_cases hr : r.len = 1
+    · simp only [ha, hb, hr, ne_eq, not_false_eq_true, and_self, or_true, if_true]
+      exact eCmp_refuses st a b r f (Or.inr ⟨hb, ha⟩) hr
+    · simp only [ha, hb, hr, ne_eq, not_false_eq_true, not_true_eq_false, and_self, and_false, false_and,
+        if_false, if_true]
+      exact eCmp_VS st a b r f ha hb hr
+  · simp only [ha, hb, ne_eq, not_false_eq_true, and_true, and_false, false_and, or_self, if_false]
+    exact eCmp_VV st a b r f (by simp [ha, hb])
+
+/-- `E.Cmp` refuses a length-one receiver when exactly one operand is a scalar. -/
+theorem eCmp_refuses (st : St) (a b r : Win) (f : BinF)
+    (h : (a.len = 1 ∧ b.len ≠ 1) ∨ (b.len = 1 ∧ a.len ≠ 1)) (hr : r.len = 1) :
+    eCmp st a b r f = .error (.err "retVal is a scalar") :=
+  TM.eCmp_refuses st a b r f h hr
+
+/-- `E.OpIncr`: all four branches. The scalar-scalar branch first runs the *in-place* kernel on the
+    operands and then adds operand `a` (now holding the result) into `incr`. -/
+theorem eOpIncr_dispatch (st : St) (a b incr : Win) (f fv : BinF) :
+    eOpIncr st a b incr f fv =
+      if a.len = 1 ∧ b.len = 1 then (do
+        let s ← kVV st a b fv
+        if incr.len ≠ 1 then eOp s incr a (fun x y => .app2 "add" x y)
+        else s.wr incr 1 0 (accAdd (← s.rd incr 1 0) (← s.rd a 1 0)))
+      else if a.len = 1 then (do kIncrSV st (← st.rd a 1 0) b incr f accAdd)
+      else if b.len = 1 then (do kIncrVS st a (← st.rd b 1 0) incr f accAdd)
+      else kIncrVV st a b incr fv accAdd := by
+  by_cases ha : a.len = 1 <;> by_cases hb : b.len = 1
+  · simp only [ha, hb, and_self, if_true]
+    exact eOpIncr_SS st a b incr f fv ha hb
+  · simp only [ha, hb, and_false, if_false, if_true]
+    exact eOpIncr_SV st a b incr f fv ha hb
+  · simp only [ha, hb, false_and, if_false, if_true]
+    exact eOpIncr_VS st a b incr f fv ha hb
+  · simp only [ha, hb, and_self, if_false]
+    exact eOpIncr_VV st a b incr f fv ha hb
+
+/-- Known defect F32, stated as what the model (= the Go code) does: with two length-one operands,
+    `E.OpIncr` overwrites the FIRST OPERAND with `fv a0 b0` and adds that value to every cell of `incr`;
+    nothing else changes. -/
+theorem eOpIncr_scalars_overwrite_operand (st : St) (a b incr : Win) (f fv : BinF)
+    (ha : a.len = 1) (hb : b.len = 1) (hab : a.buf ≠ b.buf) (hia : incr.buf ≠ a.buf) (hcap : 1 ≤ b.cap)
+    (hA : InBuf st a.buf a.off 1) (hB : InBuf st b.buf b.off 1) (hI : InBuf st incr.buf incr.off incr.len) :
+    ∃ st' a0 b0, cell st a.buf a.off = some a0 ∧ cell st b.buf b.off = some b0 ∧
+      eOpIncr st a b incr f fv = .ok st' ∧ st'.mheap = st.mheap ∧
+      cell st' a.buf a.off = some (fv a0 b0) ∧
+      (∀ i, i < incr.len → ∃ r, cell st incr.buf (incr.off + i) = some r ∧
+        cell st' incr.buf (incr.off + i) = some (.app2 "add" r (fv a0 b0))) ∧
+      (∀ b' k, b' ≠ incr.buf → (b' ≠ a.buf ∨ k ≠ a.off) → cell st' b' k = cell st b' k) := by
+  obtain ⟨st', h, hm, hva, hvi, hfr⟩ := eOpIncr_SS_spec st a b incr f fv ha hb hab hia hcap hA.has hB.has hI.has
+  refine ⟨st', _, _, cell_some_cellD (by simpa using hA.has 0 (by omega)),
+    cell_some_cellD (by simpa using hB.has 0 (by omega)), h, hm, hva, ?_, hfr⟩
+  intro i hi
+  exact ⟨_, cell_some_cellD (hI.has i hi), hvi i hi⟩
+
+/-! ## 4. the engine method on the raw path (safe mode, no options) -/
+
+/-- equal shapes are `Shape.Eq` (which in addition identifies a vanilla vector with a row/column vector) -/
+theorem shapeEq_refl (s : Shape) : shapeEq s s = true := shapeEq_self s
+
+/-- `StdEng.<Op>(a, b)` on two contiguous tensors of equal shape (`Shape.Eq`; `shapeEq_refl`) and type: a fresh clone of `a`
+    (same access pattern, new buffer) holding `a[i] op b[i]` in storage order — so, the layouts being
+    equal, coordinate-wise; every pre-existing buffer and the mask heap are untouched. -/
+theorem engArithVV_safe_raw (st : St) (op : String) (a b : Dense)
+    (hsh : shapeEq a.shape b.shape = true) (hdt : a.dt = b.dt) (hnum : a.dt ∈ numberTypes) (hk : a.dt ∈ kernelTypes op)
+    (hia : a.requiresIterator = false) (hib : b.requiresIterator = false) (hord : sameOrd a b = true)
+    (hm : a.mask = none) (hlen : a.win.len = b.win.len) (hcap : a.win.len ≤ b.win.cap)
+    (hA : InBuf st a.win.buf a.win.off a.win.len) (hB : InBuf st b.win.buf b.win.off a.win.len) :
+    ∃ out c, engArithVV st op numberTypes a b {} = .ok out ∧ out.ret = .fresh c ∧ out.reuse = none ∧
+      c.ap = { a.ap with fin := true } ∧ c.dt = a.dt ∧
+      c.win = ⟨st.heap.size, 0, a.win.len, a.win.len⟩ ∧
+      out.st.mheap = st.mheap ∧
+      (∀ i, i < a.win.len → ∃ x y, cell st a.win.buf (a.win.off + i) = some x ∧
+        cell st b.win.buf (b.win.off + i) = some y ∧
+        cell out.st c.win.buf i = some (vecFn op a.dt x y)) ∧
+      (∀ b' k, b' < st.heap.size → cell out.st b' k = cell st b' k) := by
+  have hc : BinOK numberTypes a b := ⟨by simpa using hnum, hdt, hsh⟩
+  obtain ⟨st', h, hm', hv, hfr⟩ := engArithVV_safe_raw' st op numberTypes a b hc (by simpa using hk) hia hib hord
+    hm hlen hcap hA hB
+  refine ⟨_, _, h, rfl, rfl, rfl, rfl, rfl, hm', ?_, hfr⟩
+  intro i hi
+  exact ⟨_, _, cell_some_cellD (hA.has i hi), cell_some_cellD (hB.has i hi), hv i hi⟩
+
+/-- Refusal: a non-number type, different element types or different shapes give an `error` value —
+    never a panic, and no state is produced. -/
+theorem engArithVV_refuses (st : St) (op : String) (a b : Dense) (o : Opts)
+    (h : a.dt ∉ numberTypes ∨ a.dt ≠ b.dt ∨ ¬ shapeEq a.shape b.shape = true) :
+    ∃ tag, engArithVV st op numberTypes a b o = .error (.err tag) := by
+  apply engArithVV_refuses'
+  rcases h with h | h | h
+  · exact Or.inl (by simpa using h)
+  · exact Or.inr (Or.inl h)
+  · exact Or.inr (Or.inr (by simpa using h))
+
+/-! ## 5. iterator path and the link with C05 -/
+
+/-- Safe mode when `a` needs an iterator (view, pending transpose, …): the result is a clone of `a`'s
+    storage, updated at `a.offsets[k]` with `a[a.offsets[k]] op b[b.offsets[k]]`, `k` running over the
+    common length of the two iterators; cells of the clone that the iterator does not visit keep `a`'s
+    value; pre-existing buffers are untouched. -/
+theorem engArithVV_safe_iter (st : St) (op : String) (a b : Dense)
+    (hsh : shapeEq a.shape b.shape = true) (hdt : a.dt = b.dt) (hnum : a.dt ∈ numberTypes) (hk : a.dt ∈ kernelTypes op)
+    (hia : a.requiresIterator = true) (hma : a.mask = none) (hmb : b.mask = none) (hlb : b.win.len ≠ 1)
+    (hoa : ∀ i ∈ a.offsets, 0 ≤ i ∧ i < (a.win.len : Int)) (hob : ∀ j ∈ b.offsets, 0 ≤ j ∧ j < (b.win.len : Int))
+    (hnd : a.offsets.Nodup)
+    (hA : InBuf st a.win.buf a.win.off a.win.len) (hB : InBuf st b.win.buf b.win.off b.win.len) :
+    ∃ out c, engArithVV st op numberTypes a b {} = .ok out ∧ out.ret = .fresh c ∧
+      c.ap = { a.ap with fin := true } ∧ c.win = ⟨st.heap.size, 0, a.win.len, a.win.len⟩ ∧
+      out.st.mheap = st.mheap ∧
+      (∀ (k : Nat) i j, a.offsets[k]? = some i → b.offsets[k]? = some j →
+        ∃ x y, cell st a.win.buf (a.win.off + i.toNat) = some x ∧ cell st b.win.buf (b.win.off + j.toNat) = some y ∧
+          cell out.st c.win.buf i.toNat = some (.app2 op x y)) ∧
+      (∀ m, m < a.win.len → (∀ (k : Nat) i j, a.offsets[k]? = some i → b.offsets[k]? = some j → m ≠ i.toNat) →
+        cell out.st c.win.buf m = cell st a.win.buf (a.win.off + m)) ∧
+      (∀ b' k, b' < st.heap.size → cell out.st b' k = cell st b' k) := by
+  have hc : BinOK numberTypes a b := ⟨by simpa using hnum, hdt, hsh⟩
+  obtain ⟨st', h, hm', hv, hrest, hfr⟩ := engArithVV_safe_iter' st op numberTypes a b hc (by simpa using hk) hia
+    hma hmb hlb hoa hob hnd hA hB
+  refine ⟨_, _, h, rfl, rfl, rfl, hm', ?_, ?_, hfr⟩
+  · intro k i j hi hj
+    have h1 := hoa i (List.mem_of_getElem? hi)
+    have h2 := hob j (List.mem_of_getElem? hj)
+    exact ⟨_, _, cell_some_cellD (hA.has.at h1.1 h1.2), cell_some_cellD (hB.has.at h2.1 h2.2), hv k i j hi hj⟩
+  · intro m hm hne
+    show cell st' st.heap.size m = _
+    rw [hrest m hm hne, cell_some_cellD (hA.has m hm)]
+
+/-- The iterator of a well-formed access pattern yields the row-major logical offsets
+    (`TM.C05.ndNext_run`, `single_run`, `scalar_run` combined). -/
+theorem offsets_are_rowmajor (ap : AP) (hl : ap.strides.length = ap.shape.length) (hp : ∀ d ∈ ap.shape, 0 < d) :
+    FlatIt.offsets ap = (allCoords ap.shape).map (fun c => dot c ap.strides) :=
+  offsets_rowmajor ap hl hp
+
+/-- **C06 ∘ C05: coordinate-wise and layout-blind.** Driving the two-iterator kernel with the
+    iterators of two well-formed access patterns of the same shape (any strides: transposed, sliced,
+    column-major, …) combines, for every logical coordinate `c`, the element of `a` at `c` with the
+    element of `b` at `c`, in operand order, and stores it in `a`'s cell for `c`; no other cell changes. -/
+theorem kIterVV_coordinatewise (st : St) (a b : Win) (f : BinF) (pa pb : AP) (hsh : pa.shape = pb.shape)
+    (hla : pa.strides.length = pa.shape.length) (hlb : pb.strides.length = pb.shape.length)
+    (hp : ∀ d ∈ pa.shape, 0 < d) (hne : a.buf ≠ b.buf)
+    (hoa : ∀ i ∈ FlatIt.offsets pa, 0 ≤ i ∧ i < (a.len : Int))
+    (hob : ∀ j ∈ FlatIt.offsets pb, 0 ≤ j ∧ j < (b.len : Int))
+    (hnd : (FlatIt.offsets pa).Nodup)
+    (hA : InBuf st a.buf a.off a.len) (hB : InBuf st b.buf b.off b.len) :
+    ∃ st', kIterVV st a b f ((FlatIt.offsets pa).map (·, true)) ((FlatIt.offsets pb).map (·, true)) = .ok st' ∧
+      st'.mheap = st.mheap ∧
+      (∀ c ∈ allCoords pa.shape, ∃ x y,
+        cell st a.buf (a.off + (dot c pa.strides).toNat) = some x ∧
+        cell st b.buf (b.off + (dot c pb.strides).toNat) = some y ∧
+        cell st' a.buf (a.off + (dot c pa.strides).toNat) = some (f x y)) ∧
+      (∀ b' k', (b' ≠ a.buf ∨ ∀ c ∈ allCoords pa.shape, k' ≠ a.off + (dot c pa.strides).toNat) →
+        cell st' b' k' = cell st b' k') := by
+  obtain ⟨st', h, hm, hv, hfr⟩ := kIterVV_coordwise' st a b f pa pb hsh hla hlb hp hne hoa hob hnd hA.has hB.has
+  refine ⟨st', h, hm, ?_, hfr⟩
+  intro c hc
+  have ea := offsets_rowmajor pa hla hp
+  have eb := offsets_rowmajor pb hlb (hsh ▸ hp)
+  have h1 := hoa (dot c pa.strides) (by rw [ea]; exact List.mem_map.mpr ⟨c, hc, rfl⟩)
+  have h2 := hob (dot c pb.strides) (by rw [eb, ← hsh]; exact List.mem_map.mpr ⟨c, hc, rfl⟩)
+  exact ⟨_, _, cell_some_cellD (hA.has.at h1.1 h1.2), cell_some_cellD (hB.has.at h2.1 h2.2), hv c hc⟩
+
+/-! ## non-vacuity: every hypothesis set above is satisfied by a small concrete state -/
+namespace Ex
+
+def st : St := { heap := #[#[.src 0 0, .src 0 1, .src 0 2, .src 0 3], #[.src 1 0, .src 1 1, .src 1 2, .src 1 3],
+                           #[.src 2 0, .src 2 1, .src 2 2, .src 2 3], #[.src 3 0], #[.src 4 0]] }
+def wa : Win := ⟨0, 0, 4, 4⟩
+def wb : Win := ⟨1, 0, 4, 4⟩
+def wr : Win := ⟨2, 0, 4, 4⟩
+def ws : Win := ⟨3, 0, 1, 1⟩
+def ws' : Win := ⟨4, 0, 1, 1⟩
+def f : BinF := fun x y => .app2 "f" x y
+def g : UnF := fun x => .app1 "g" x
+/-- contiguous 2×2 tensors -/
+def ta : Dense := { ap := { shape := [2, 2], strides := [2, 1] }, win := wa, dt := "f64" }
+def tb : Dense := { ap := { shape := [2, 2], strides := [2, 1] }, win := wb, dt := "f64" }
+/-- a lazily transposed 2×2 tensor (needs an iterator) -/
+def tT : Dense := { ap := { shape := [2, 2], strides := [1, 2] }, old := some { shape := [2, 2], strides := [2, 1] },
+                    win := wa, dt := "f64" }
+def ia : ItS := [(0, true), (2, false), (1, true), (3, true)]
+def ib : ItS := [(0, true), (1, true), (2, true), (3, false)]
+
+theorem inA : InBuf st 0 0 4 := ⟨_, rfl, by decide⟩
+theorem inB : InBuf st 1 0 4 := ⟨_, rfl, by decide⟩
+theorem inR : InBuf st 2 0 4 := ⟨_, rfl, by decide⟩
+theorem inS : InBuf st 3 0 1 := ⟨_, rfl, by decide⟩
+theorem inS' : InBuf st 4 0 1 := ⟨_, rfl, by decide⟩
+theorem rA : InRange ia 4 := by unfold InRange ia; decide
+theorem rB : InRange ib 4 := by unfold InRange ib; decide
+
+example := kVV_sem st wa wb f (by decide) (by decide) inA inB
+example := kSV_sem st (.lit "2") wb f inB
+example := kVS_sem st wa (.lit "2") f inA
+example := kRecvVV_sem st wa wb wr f (by decide) (by decide) (by decide) (by decide) inA inB inR
+example := kRecvSV_sem st (.lit "2") wb wr f (by decide) (by decide) inB inR
+example := kRecvVS_sem st wa (.lit "2") wr f (by decide) (by decide) inA inR
+example := kIncrVV_sem st wa wb wr f accAdd (by decide) (by decide) (by decide) (by decide) inA inB inR
+example := kIncrSV_sem st (.lit "2") wb wr f accAdd (by decide) (by decide) inB inR
+example := kIncrVS_sem st wa (.lit "2") wr f accAdd (by decide) (by decide) inA inR
+example := kUn_sem st wa g inA
+example := kIterVV_sem st wa wb f ia ib (by decide) rA rB (by decide) inA inB
+example := kIterVV_alltrue st wa wb f [0, 2, 1, 3] [0, 1, 2, 3] (by decide) (by decide) (by decide) (by decide) inA inB
+example := kIterSV_sem st (.lit "2") wb f ib rB (by decide) inB
+example := kIterVS_sem st wa (.lit "2") f ia rA (by decide) inA
+example := kIter3VV_sem st wa wb wr f accAdd ia ib ib (by decide) (by decide) rA rB rB (by decide) inA inB inR
+example := kUnIter_sem st wa g ia rA (by decide) inA
+example := eOp_scalar_left st ws wb f f (.src 3 0) (by decide) rfl
+example := eOp_scalar_right st wa ws f f (.src 3 0) (by decide) rfl
+example := eOpIter_scalar_left st ws wb f f [] ib (.src 3 0) (by decide) rfl
+example := eOpIter_scalar_right st wa ws f f ia [] (.src 3 0) (by decide) rfl
+example := eCmp_refuses st ws wb ws' f (Or.inl (by decide)) rfl
+example := eOpIncr_scalars_overwrite_operand st ws ws' wr f f rfl rfl (by decide) (by decide) (by decide) inS inS' inR
+example := engArithVV_safe_raw st "add" ta tb (by decide) rfl (by decide) (by decide) (by decide) (by decide)
+  (by decide) rfl rfl (by decide) inA inB
+/-- the window well-formedness hypothesis `hcap` (`len ≤ cap`) cannot be dropped: the kernel re-slices
+    `b = b[:len(a)]`, which panics beyond the capacity -/
+example : engArithVV st "add" numberTypes ta { tb with win := ⟨1, 0, 4, 3⟩ } {} =
+    .error (.panic "slice bounds out of range") := rfl
+example : ∃ tag, engArithVV st "add" numberTypes { ta with dt := "b" } tb {} = .error (.err tag) :=
+  engArithVV_refuses st "add" _ tb {} (Or.inl (by decide))
+example := engArithVV_safe_iter st "add" tT tb (by decide) rfl (by decide) (by decide) (by decide) rfl rfl
+  (by decide) (by decide) (by decide) (by decide) inA inB
+example := offsets_are_rowmajor { shape := [2, 2], strides := [1, 2] } rfl (by decide)
+example := kIterVV_coordinatewise st wa wb f { shape := [2, 2], strides := [1, 2] } { shape := [2, 2], strides := [2, 1] }
+  rfl rfl rfl (by decide) (by decide) (by decide) (by decide) (by decide) inA inB
+/-- the iterators of the transposed and of the plain 2×2 tensor -/
+example : (FlatIt.offsets tT.ap, FlatIt.offsets tb.ap) = ([0, 2, 1, 3], [0, 1, 2, 3]) := by decide
+/-- a concrete run `Add(aᵀ, b)`: coordinate (0,1) is cell 2 of `aᵀ` and cell 1 of `b`; the clone
+    (fresh buffer 5) holds their sum at cell 2 — coordinate-wise, not storage-wise -/
+example : ∃ out, engArithVV st "add" numberTypes tT tb {} = .ok out ∧
+    cell out.st 5 2 = some (.app2 "add" (.src 0 2) (.src 1 1)) := ⟨_, rfl, rfl⟩
+
+end Ex
+
 end TM.C06
